@@ -39,7 +39,31 @@ def arcs(spec):
     return out
 
 
+def dijkstra_from(n, adj, s):
+    """Distances from s over adj[a] = [(b, w)] (non-negative weights), by the standard library's heap."""
+    import heapq
+    dist = [INF] * n
+    dist[s] = 0
+    heap = [(0, s)]
+    while heap:
+        d, a = heapq.heappop(heap)
+        if d > dist[a]:
+            continue
+        for b, w in adj[a]:
+            c = d + w
+            if c < dist[b]:
+                dist[b] = c
+                heapq.heappush(heap, (c, b))
+    return dist
+
+
 def floyd_warshall(n, arc_list):
+    if n > 40:
+        # larger graphs: one Dijkstra per source (same distances; weights are non-negative)
+        adj = [[] for _ in range(n)]
+        for a, b, w, _i, _f in arc_list:
+            adj[a].append((b, w))
+        return [dijkstra_from(n, adj, s) for s in range(n)]
     D = [[INF] * n for _ in range(n)]
     for i in range(n):
         D[i][i] = 0  # the empty walk
@@ -201,6 +225,36 @@ def random_graph(rng, nmax=12, mmax=40, weights=W6, geom=False, nmin=2):
     return {"n": n, "pos": pos, "edges": edges, "style": style}
 
 
+W_BIG = [0.5, 1, 1, 2, 3, 5, 8, 13, 21, 34, 0]
+
+
+def big_graph(rng, n, m, geom=False):
+    """A network of hundreds of nodes: a grid of streets (so that most nodes are connected) plus random chords,
+    one-way streets, parallel edges and self loops; dyadic weights."""
+    side = int(math.ceil(math.sqrt(n)))
+    pos = [[10 * (i % side), 10 * (i // side)] for i in range(n)]
+    edges = []
+    for i in range(n):
+        for j in (i + 1, i + side):
+            if j < n and (j != i + 1 or (i + 1) % side) and rng.random() < 0.8:
+                edges.append([i, j, rng.choice(W_BIG), rng.choice([0, 0, 0, 1, -1]), []])
+    while len(edges) < m:
+        r = rng.random()
+        if r < 0.03:
+            u = v = rng.randrange(n)
+        elif r < 0.10:
+            b = rng.choice(edges)
+            u, v = (b[0], b[1]) if rng.random() < 0.5 else (b[1], b[0])
+        else:
+            u, v = rng.randrange(n), rng.randrange(n)
+        inter = []
+        if geom and rng.random() < 0.3:
+            inter = [[rng.randrange(-16, 10 * side * 8) / 8.0 + 0.0625, rng.randrange(-16, 10 * side * 8) / 8.0 + 0.0625]]
+        edges.append([u, v, rng.choice(W_BIG), rng.choice([0, 0, 1, -1]), inter])
+    rng.shuffle(edges)
+    return {"n": n, "pos": pos, "edges": edges, "style": "big"}
+
+
 # --------------------------------------------------------------------------
 # classes of a graph (input classes named by the properties)
 def graph_classes(spec, D):
@@ -234,7 +288,7 @@ def graph_classes(spec, D):
     # a pair with two different optimal first arcs = tie
     A = arcs(spec)
     tie = False
-    for s in range(n):
+    for s in range(n if n <= 40 else 0):
         for t in range(n):
             if s == t or D[s][t] == INF:
                 continue
@@ -270,7 +324,11 @@ def build_network(spec, warm=None):
     n = spec["n"]
     pos = spec["pos"]
     net = Network()
-    ids = ["n%d" % i for i in range(n)]
+    # identifiers: strings "n<i>" as tracklib's own reader produces them by default; other legal spellings on demand
+    # (spec["id_style"]): "digits" = the strings "1".."<n>" (as read from a file whose identifiers are numbers: every
+    # character of "12" is itself an identifier), "int" = Python ints 1..n
+    st = spec.get("id_style")
+    ids = [str(i + 1) if st == "digits" else (i + 1) if st == "int" else "n%d" % i for i in range(n)]
     nodes = [Node(ids[i], ENUCoords(pos[i][0], pos[i][1], 0)) for i in range(n)]
     for nd in nodes:
         net.addNode(nd)
@@ -296,7 +354,7 @@ def build_network(spec, warm=None):
         tr = Track()
         for p in polyline(spec, k):
             tr.addObs(Obs(ENUCoords(p[0], p[1], 0), ObsTime()))
-        ed = Edge("e%d" % k, tr)
+        ed = Edge(str(k + 1) if st == "digits" else (k + 1) if st == "int" else "e%d" % k, tr)
         ed.orientation = e[3]
         ed.weight = e[2]
         net.addEdge(ed, nodes[e[0]], nodes[e[1]])
@@ -334,10 +392,18 @@ def install_pop_monitor():
     orig = cls.__dict__["pop_smallest"]
 
     def pre(a, k):
-        return dict(a[0])  # key -> priority before the pop
+        q = a[0]
+        if len(q) > 48:
+            # large queues (networks of hundreds of nodes): the full copy is taken at every 16th pop only
+            c = q.__dict__["_vt_pops"] = q.__dict__.get("_vt_pops", 0) + 1
+            if c % 16:
+                return None
+        return dict(q)  # key -> priority before the pop
 
     def post_min(before, a, k, result):
         q = a[0]
+        if before is None:
+            return None
         if not any(result is key for key in before):
             return "popped a key that was not in the queue: %r" % (getattr(result, "id", result),)
         if any(result is key for key in dict.keys(q)):
@@ -350,14 +416,15 @@ def install_pop_monitor():
 
     def post_mono(before, a, k, result):
         q = a[0]
-        st = q.__dict__.setdefault("_vt_pop_state", {"last": None, "seen": []})
-        pr = before.get(result)
+        st = q.__dict__.setdefault("_vt_pop_state", {"last": None, "seen": [], "ids": set()})
+        pr = before.get(result) if before is not None else None
         prob = None
-        if any(result is s for s in st["seen"]):
+        if id(result) in st["ids"] and any(result is s for s in st["seen"]):
             prob = "key %r settled twice in one search" % (getattr(result, "id", result),)
         elif pr is not None and st["last"] is not None and pr < st["last"] - TOL * max(1.0, abs(st["last"])):
             prob = "priority went backwards: %r after %r (key %r)" % (pr, st["last"], getattr(result, "id", result))
         st["seen"].append(result)
+        st["ids"].add(id(result))
         if pr is not None:
             st["last"] = pr
         return prob
